@@ -137,7 +137,7 @@ pub fn corrupt(d: &mut D) {
                     }
                     if rep == 1 {
                         // the way a sloppy driver would do it: probe the length, then hand over the whole buffer
-                        d.get_length(5, &q[..3]);
+                        d.get_length(5, &q[..q.len().min(3)]);
                     }
                     d.decode(5, &q);
                     if rep == 2 {
@@ -173,7 +173,7 @@ pub fn corrupt(d: &mut D) {
                 q[n - 1] ^= 0x3C;
             }
             if extra == 2 {
-                d.get_length(5, &q[..3]);
+                d.get_length(5, &q[..q.len().min(3)]);
             }
             d.decode(5, &q);
             d.process(5, &q);
@@ -182,9 +182,9 @@ pub fn corrupt(d: &mut D) {
             if crc8(&q2[..n - 1]) == q2[n - 1] {
                 q2[n - 1] ^= 0x3C;
             }
-            d.get_length(5, &q2[..3]);
+            d.get_length(5, &q2[..q2.len().min(3)]);
             d.decode(5, &q2);
-            d.get_length(5, &q2[..3]);
+            d.get_length(5, &q2[..q2.len().min(3)]);
             d.process(5, &q2);
         }
     }
